@@ -78,7 +78,7 @@ def shard(shard, nshards, n, tier, seed):
             return o
 
         nreal = max(1, int(n * 0.8))
-        drive(strategies.form_specs(PROFILE), lambda s: ev(s, types[s["data_seed"] % 3]), nreal, (PROP, seed, shard, "real"), res)
+        drive(strategies.forms(PROFILE), lambda s: ev(s, types[s["data_seed"] % 3]), nreal, (PROP, seed, shard, "real"), res)
         drive(strategies.form_specs(dict(PROFILE, complex=True)), lambda s: ev(s, ["complex128", "complex64"][s["data_seed"] % 2]),
               max(1, n - nreal), (PROP, seed, shard, "cplx"), res)
     return res
